@@ -1,1 +1,35 @@
 //! Verification hooks (`--cfg rustrtc_verif` only): peer.
+//!
+//! H5: read-only snapshot of the signaling-related state of a `PeerConnection`
+//! (`PeerConnection::verif_snapshot`, defined at the end of `peer_connection.rs`) and a way to put a
+//! connection into the "DTLS transport has started" condition without a network
+//! (`PeerConnection::verif_mark_dtls_started`).
+
+use crate::peer_connection::{RtpCodecParameters, SignalingState, TransceiverDirection};
+use crate::{MediaKind, SessionDescription};
+
+/// One transceiver as the signaling code sees it. Maps are sorted by key.
+#[derive(Debug, Clone, PartialEq)]
+pub struct TransceiverSnapshot {
+    pub id: u64,
+    pub kind: MediaKind,
+    pub mid: Option<String>,
+    pub direction: TransceiverDirection,
+    pub payload_map: Vec<(u8, RtpCodecParameters)>,
+    pub extmap: Vec<(u8, String)>,
+    pub has_sender: bool,
+    pub has_sender_ssrc: bool,
+}
+
+#[derive(Debug, Clone, PartialEq)]
+pub struct PeerSnapshot {
+    pub signaling_state: SignalingState,
+    pub local_description: Option<SessionDescription>,
+    pub remote_description: Option<SessionDescription>,
+    pub transceivers: Vec<TransceiverSnapshot>,
+    pub next_mid: u16,
+    pub dtls_started: bool,
+    pub remote_dtls_fingerprint: Option<String>,
+    pub dtls_role: Option<bool>,
+    pub local_dtls_fingerprint: String,
+}
